@@ -58,6 +58,7 @@ package compile
 //@   modifies *
 //@   keeps map[string]bool
 //@   keeps map[parse.Node]bool
+//@   keeps Compiler.typedefChain
 //@   preserves c.filter
 //@   ensures false
 //@ func (*Compiler).buildListChildren
